@@ -12,6 +12,7 @@ from .codec import enc, fhex, h64
 from .ops import containers_for
 
 ODD_TIMES = [0.0, -0.5]
+UNKNOWN_VALUES = [1.0, None, 1.0, 0, "x", 1.0, None]     # the value given to an unknown parameter name must not matter
 COMMON_NAMES = ["gamma", "geometry", "rho0", "u0", "M0", "D", "L", "Nsum", "eblast", "omega", "t_f", "Gamma", "xnodes"]
 ALLOC_PATTERNS = [0.0, 1.0, 123.456, float("nan"), 1e300, -1.0]
 FAULT_KINDS = ["dep", "abort", "devnull", "nofile", "alias", "lifetime", "alloc"]
@@ -83,7 +84,7 @@ class Gen(object):
         ps = fam.pool[pi]
         kw = dict(kw)
         if bad == "unknown":
-            kw[rng.choice(unknown_names(cls))] = 1.0
+            kw[rng.choice(unknown_names(cls))] = rng.choice(UNKNOWN_VALUES)
         oid = "S%d" % (len(self.objs) + 1)
         op = {"op": "new", "c": client, "obj": oid, "cls": qual, "kw": enc(kw), "fam": fam.name, "pi": pi}
         if ps.eos is not None:
@@ -176,6 +177,9 @@ class Gen(object):
         t = times[0] if rng.random() < 0.6 else rng.choice(times)
         if rng.random() < self.cfg.get("odd_time", 0.04):
             t = rng.choice(ODD_TIMES)     # branch-selecting times (t <= 0): whatever happens must happen the same when fresh
+        elif st.requests and rng.random() < self.cfg.get("near_time", 0.06):
+            # a time different from, but nearly equal to, one this object was already asked for (a time step)
+            t = float.fromhex(rng.choice(st.requests)[1]) * (1.0 + rng.choice([2.0 ** -20, -2.0 ** -20, 2.0 ** -36]))
         return pts, fhex(t), ps.pts.layout
 
     def call_op(self, client, st, pts, thex, layout, cont=None, buf=None):
@@ -523,6 +527,7 @@ def cornerstone_list(tier):
                     out.append((f.name, p, q, "plain"))
         for p in range(n):
             out.append((f.name, p, p, "two_times"))   # every parameter set: one object used at two times, then a fresh twin
+        out.append((f.name, 0, 0, "sweep"))            # a parameter sweep: more distinct parameter sets than a bounded cache holds
     # cross-family pairs inside one package: families that share a Python package share modules, base classes and
     # module-level state (radshocks' function table, Rod1D's class body behind the planar sandwiches, ep_riemann/utils)
     by_pkg = {}
@@ -557,6 +562,8 @@ def make_cornerstone(seed, tier, k, prop="C06"):
     fam = T.FAMILIES[fname]
     fam_b = T.FAMILIES[entry[4]] if len(entry) > 4 else fam
     rng = random.Random(h64(seed, tier, "corner", k))
+    if variant == "sweep":
+        return make_sweep(seed, tier, k, fam, rng, prop)
     cfg = dict(BASE_CFG)
     cfg.update(n_choices=[3, 5, 7], share_eos=0.5, share_ic=0.5, plain_container=0.7, refill=0.0, bb_setters=0.5)
     g = Gen(rng, [fam, fam_b], cfg)
@@ -592,6 +599,9 @@ def make_cornerstone(seed, tier, k, prop="C06"):
         g.call_op(0, a, pa, t2, la)
         g.call_op(0, a, pa, ta, la)
         g.call_op(0, a, pa, t2, la)
+        # ... and at times nearly equal to the ones already used (a "did the time change?" test with a tolerance)
+        g.call_op(0, a, pa, fhex(float.fromhex(ta) * (1.0 + 2.0 ** -20)), la)
+        g.call_op(0, a, pa, fhex(float.fromhex(t2) * (1.0 - 2.0 ** -36)), la)
     if variant == "a_retry":
         # a solution for one time exists; a call at a NEW time is interrupted; the caller retries at that new time
         t_new = fhex(float.fromhex(ta) * 0.5 if float.fromhex(ta) != 0 else 0.25)
@@ -617,6 +627,64 @@ def make_cornerstone(seed, tier, k, prop="C06"):
             "config": {"family": fname, "family_b": fam_b.name, "p": p, "q": q, "variant": variant},
             "families": sorted({fname, fam_b.name}), "run": run, "ops": g.ops, "intents": intents, "faults": []}
     return spec
+
+
+def sweep_parameter(fam):
+    """The float parameter a sweep varies: the first one-at-a-time variant of the family that is a float (validated when
+    auto_pool.json was generated), so that most of the swept sets construct."""
+    base = fam.pool[0].kwargs
+    for ps in fam.pool:
+        if ps.note.startswith("auto:") and not ps.note.startswith(("auto:geometry", "auto:near")):
+            p = ps.note[5:].rstrip("-")
+            v = ps.kwargs.get(p)
+            if isinstance(v, float) and not isinstance(v, bool) and v != 0.0:
+                d = v / 1.07
+                return p, d
+    return None, None
+
+
+def make_sweep(seed, tier, k, fam, rng, prop):
+    """One family, many distinct parameter sets in one process (a gamma sweep, a convergence study), then the early ones
+    again: a bounded cache or table is only ever seen full, recycled or evicted here."""
+    cfg = dict(BASE_CFG)
+    cfg.update(n_choices=[2, 3], share_eos=0.0, share_ic=0.0, plain_container=1.0, refill=0.0, bb_setters=0.0,
+               special_pts=0.0, nonfinite_pts=0.0, odd_time=0.0, near_time=0.0)
+    g = Gen(rng, [fam], cfg)
+    qual = _qual_for(fam, 0)
+    p, d = sweep_parameter(fam)
+    n = 0 if p is None else (140 if fam.cost == "cheap" else 20)
+    first = g.new_op(0, fam, qual=qual, pi=0)
+    objs = [first]
+    pts, thex, layout = g.request_points(first, n=2, v=0)
+    g.call_op(0, first, pts, thex, layout, cont="nd")
+    for i in range(1, n + 1):
+        st = g.new_op(0, fam, qual=qual, pi=0)
+        if st is None:
+            break
+        kw = dict(fam.pool[0].kwargs)
+        kw[p] = d * (1.0 + 0.0113 * i)
+        st.new_op["kw"] = enc(kw)
+        objs.append(st)
+        g.call_op(0, st, pts, thex, layout, cont="nd")
+        if i % 8 == 0:
+            victim = objs[rng.randrange(1, len(objs) - 1)] if len(objs) > 2 else None
+            if victim is not None and victim.alive and rng.random() < 0.5:
+                victim.alive = False
+                g.ops.append({"op": "drop", "c": 0, "obj": victim.oid})
+    for st in objs[:4]:
+        if st.alive:
+            g.call_op(0, st, pts, thex, layout, cont="nd")
+    twin = g.new_op(0, fam, qual=qual, pi=0)
+    if twin is not None:
+        g.call_op(0, twin, pts, thex, layout, cont="nd")
+        if len(objs) > 1:
+            twin2 = g.new_op(0, fam, qual=qual, pi=0)
+            twin2.new_op["kw"] = objs[1].new_op["kw"]
+            g.call_op(0, twin2, pts, thex, layout, cont="nd")
+    append_canaries(g, rng)
+    return {"seed": seed, "tier": tier, "index": k, "prop": prop, "kind": "cornerstone",
+            "config": {"family": fam.name, "variant": "sweep", "parameter": p, "sets": n},
+            "families": [fam.name], "run": {}, "ops": g.ops, "intents": [], "faults": []}
 
 
 def _qual_for(fam, pi):
@@ -676,6 +744,9 @@ STREAM_PLANS = [
     {"fail_write_call": 1, "errno": "EIO"}, {"fail_write_call": 2, "errno": "EIO"}, {"fail_write_call": 5, "errno": "ENOSPC"},
     {"fail_close": True, "errno": "EIO"}, {"fail_close": True, "errno": "ENOSPC"},
     {"short": 1}, {"short": 7}, {"short": 7, "fail_at_byte": 200, "errno": "ENOSPC"}, {"short": 3, "fail_close": True, "errno": "EIO"},
+    {"fail_at_byte": 64, "errno": "EPIPE"}, {"fail_write_call": 2, "errno": "EPIPE"}, {"fail_at_byte": 1024, "errno": "EPIPE"},
+    {"fail_at_byte": 300, "errno": "EDQUOT"}, {"fail_write_call": 1, "errno": "EROFS"}, {"fail_at_byte": 2000, "errno": "EFBIG"},
+    {"fail_close": True, "errno": "EDQUOT"}, {"fail_open": True, "errno": "EROFS"}, {"fail_at_byte": 10, "errno": "ENOMEM"},
 ]
 PROBE_QUAL = "verif.probe.ProbeSolver"
 PROBE_VALUES_QUAL = "verif.probe.ProbeValues"
@@ -733,14 +804,16 @@ def missing_params(cls):
     return [p for p in cls.parameters if not hasattr(cls, p)]
 
 
-def c05_census(tier):
+def c05_census(tier, sweep=False):
     out = []
     for q in sorted(world.CENSUS):
-        if q == PROBE_QUAL:
+        if not q.startswith("exactpack."):
             continue
         fam = T.family_of(q)
-        if fam is None or not _enabled(fam, tier):
+        if fam is None or fam.internal:
             continue
+        if not _enabled(fam, tier) and not (sweep and ONLY is None and fam.cost == "heavy"):
+            continue      # the constructor sweep includes the heavy classes in every tier: bad constructors cost nothing
         out.append(q)
     return out
 
@@ -894,7 +967,7 @@ def make_c05_sweep(seed, tier, k):
     """C05 cornerstone k: one class, every candidate unknown name (and every default-less parameter left out),
     then a good constructor and one plain request -- a short, systematic session for the constructor clause."""
     world.load()
-    census = c05_census(tier) + ([PROBE_QUAL] if PROBE_QUAL in world.CENSUS else [])
+    census = c05_census(tier, sweep=True) + ([PROBE_QUAL] if PROBE_QUAL in world.CENSUS else [])
     qual = census[k % len(census)]
     cls = world.CENSUS[qual]
     fam, usable = T.pool_for(qual, cls)
@@ -909,7 +982,7 @@ def make_c05_sweep(seed, tier, k):
                 break
             op = g.ops[-1]
             kw = dict(kw0)
-            kw[name] = 1.0
+            kw[name] = UNKNOWN_VALUES[(len(g.ops)) % len(UNKNOWN_VALUES)]
             if rng.random() < 0.25:
                 kw["verbose"] = True
             op["kw"] = enc(kw)
@@ -925,9 +998,10 @@ def make_c05_sweep(seed, tier, k):
                 dead = ObjState(oid, qual, fam, pi, op, 100)
                 dead.alive = False
                 g.objs.append(dead)
-        st = g.new_op(100, fam, qual=qual, pi=pi)
-        if st is not None:
-            pts, thex, layout = g.request_points(st)
-            g.call_op(100, st, pts, thex, layout, cont="nd")
+        if not (fam.cost == "heavy" and tier != "thorough"):
+            st = g.new_op(100, fam, qual=qual, pi=pi)
+            if st is not None:
+                pts, thex, layout = g.request_points(st)
+                g.call_op(100, st, pts, thex, layout, cont="nd")
     return {"seed": seed, "tier": tier, "index": k, "prop": "C05", "kind": "cornerstone", "config": {"class": qual},
             "families": [fam.name] if fam else [], "visits": [qual], "run": {}, "ops": g.ops, "intents": [], "faults": []}
